@@ -23,7 +23,14 @@ def s_isnan(x):
     return bool(_np.isnan(x))
 
 
+def _is_sfp(x):
+    return type(x).__name__ == 'SFP'
+
+
 def s_isinf(x):
+    if _is_sfp(x):
+        import z3
+        return SBool.mk(z3.fpIsInf(x.t))
     if isinstance(x, SFloat):
         return SBool.mk(OR(x.pinf, x.ninf))
     if isinstance(x, (SInt, SBool)):
@@ -32,6 +39,9 @@ def s_isinf(x):
 
 
 def s_isfinite(x):
+    if _is_sfp(x):
+        import z3
+        return SBool.mk(z3.Not(z3.Or(z3.fpIsInf(x.t), z3.fpIsNaN(x.t))))
     if isinstance(x, SFloat):
         return SBool.mk(x.fin)
     if isinstance(x, (SInt, SBool)):
